@@ -87,6 +87,56 @@ end
 def violated (d : Decl) (v : Val) : Option (List Entry) :=
   fieldsEntries (sortById (markersOfDoc d.doc)) [d.name] v d.fields
 
+/-! ### C09: markers written on a nested anonymous struct
+
+A marker list `ml` written on a nested anonymous struct field governs the DIRECT leaf fields of that struct
+(every name on its own); struct-typed members get no check from it. `path` is the path the entries are
+reported under — struct name · nested field names up to and including the nested struct. (The generator reports
+these entries under the path WITHOUT the nested struct's name: known finding C07-K8; `Entry.rv` is what C02/C09
+compare.) -/
+
+def directEntries (path : List String) (ml : List Marker) (nv : Val) : List FieldT → Option (List Entry)
+  | [] => some []
+  | .leaf names ty _ :: fs =>
+    match namesEntries path ty ml nv names, directEntries path ml nv fs with
+    | some a, some b => some (a ++ b)
+    | _, _ => none
+  | .nest _ _ _ :: fs => directEntries path ml nv fs
+
+/-- rule and value of an entry (its Path aside) -/
+def Entry.rv (e : Entry) : String × String := (e.type, e.value)
+
+mutual
+/-- as `fieldEntries`, with the markers written on nested anonymous structs taken into account -/
+def fieldEntriesN (tm : List Marker) (path : List String) (sv : Val) : FieldT → Option (List Entry)
+  | .leaf names ty doc => namesEntries path ty (tm ++ sortById (markersOfDoc doc)) sv names
+  | .nest names doc fields => nestEntriesN tm doc path sv fields names
+termination_by f => (sizeOf f, 0)
+/-- per name of the nested struct: the rules handed down to its direct leaves, then the fields' own rules -/
+def nestEntriesN (tm : List Marker) (doc : List String) (path : List String) (sv : Val) (fields : List FieldT) : List String → Option (List Entry)
+  | [] => some []
+  | n :: ns =>
+    match getField sv n with
+    | none => none
+    | some nv =>
+      match directEntries (path ++ [n]) (sortById (markersOfDoc doc)) nv fields, fieldsEntriesN tm (path ++ [n]) nv fields, nestEntriesN tm doc path sv fields ns with
+      | some d, some a, some b => some (d ++ a ++ b)
+      | _, _, _ => none
+termination_by names => (sizeOf fields, names.length + 1)
+def fieldsEntriesN (tm : List Marker) (path : List String) (sv : Val) : List FieldT → Option (List Entry)
+  | [] => some []
+  | f :: fs =>
+    match fieldEntriesN tm path sv f, fieldsEntriesN tm path sv fs with
+    | some a, some b => some (a ++ b)
+    | _, _ => none
+termination_by fs => (sizeOf fs, 0)
+end
+
+/-- the report required for `d` on `v` when nested anonymous structs may carry markers of their own -/
+def violatedN (d : Decl) (v : Val) : Option (List Entry) :=
+  fieldsEntriesN (sortById (markersOfDoc d.doc)) [d.name] v d.fields
+
+
 /-! ### C15: one cancellation point per validated field -/
 
 def leafHasRule (ty : Ty) (ms : List Marker) : Bool :=
